@@ -170,7 +170,11 @@ func writeDesc(w io.Writer, desc string, indent int, withDesc bool) (err error) 
 		}
 	}
 	shift := strings.Repeat("  ", indent)
-	if strings.ContainsAny(desc, "\n\"") {
+	multi := strings.ContainsAny(desc, "\n\"")
+	// The reader takes a backslash as the start of an escape in both string
+	// forms so escape what would otherwise not read back as written.
+	desc = strings.NewReplacer("\\", "\\\\", "\"", "\\\"").Replace(desc)
+	if multi {
 		if _, err = w.Write([]byte(shift)); err == nil {
 			shift = "\n" + shift
 			if _, err = w.Write([]byte(`"""`)); err == nil {
